@@ -269,6 +269,11 @@ const SWEEPS: &[&str] = &[
 const SWEEPS_FULL: &[&str] = &[
     "{{ x | date_in_tz: y, z }}",
     "{{ x | slugify: y }}",
+    // every slugify mode by name (the mode strings are not in the value pools)
+    "{{ x | slugify: 'none' }}|{{ x | slugify: 'raw' }}|{{ x | slugify: 'default' }}",
+    "{{ x | slugify: 'pretty' }}|{{ x | slugify: 'ascii' }}|{{ x | slugify: 'latin' }}",
+    "{{ x | slugify: 'PRETTY' }}|{{ x | slugify: '' }}",
+    "{{ x | append: y | slugify: 'latin' | slugify: 'ascii' }}",
     "{{ x | push: y | pop | unshift: z | shift | array_to_sentence_string: y }}",
     "{{ x | sort: y }}",
     "{{ x | sort: y, z }}",
